@@ -50,7 +50,7 @@ func guardedHereOrInCallers(w *World, site ssa.Instruction, pred func([]Fact) bo
 // mpTxInfo describes the transaction frame of one metadataPartStorage method.
 type mpTxInfo struct {
 	fn       *ssa.Function
-	frames   []ssa.CallInstruction // WithTx / WithTxReadClosers calls
+	frames   []ssa.CallInstruction  // WithTx / WithTxReadClosers calls
 	closures map[*ssa.Function]bool // function literals (transitively) run inside a frame
 	readOnly []bool
 }
